@@ -171,7 +171,13 @@ FIXED = [
     ([2, 2, 2, 2, 2], [[0, 2, 4]]), ([2, 2, 2, 2, 2], [[0, 1, 2, 3, 4]]), ([1, 1, 1, 2, 2, 2], [[0, 1, 2], [3, 4, 5]]),
     ([4, 4], [[0, 1]]), ([6, 6], [[0, 1]]), ([2, 3], [[0], [1]]), ([5], [[0]]), ([3, 3, 4], [[1, 0]]),
     ([2, 2, 2], [[2, 0, 1]]), ([2, 3, 2, 3], [[3, 1], [2, 0]]), ([1, 3, 1, 3], [[0, 2], [1, 3]]),
+    # three groups (64 cells; every average is a multiple of 1/8, so still exact)
+    ([2, 2, 2, 2, 2, 2], [[0, 1], [2, 3], [4, 5]]), ([2, 2, 2, 2, 2, 2], [[0, 3], [1, 4], [2, 5]]),
 ]
+
+# two groups of three modes each: two divisions by 3 in a row in the class-based version; the data are
+# multiples of 9 so that both quotients (and the sum / 36 of the all-permutations version) stay integers
+NINE = [([2, 2, 2, 2, 2, 2], [[0, 1, 2], [3, 4, 5]]), ([2, 2, 2, 2, 2, 2], [[0, 2, 4], [5, 3, 1]])]
 
 
 def scopes(rng, tier):
@@ -251,6 +257,9 @@ class Symmetrize(Family):
             for kind in kinds:
                 data = gen.dense_data(rng, s) if kind == "random" else symmetric_data(rng, s, g)
                 out.append({"shape": s, "data": data, "grps": g, "conv": conv_of(rng, s, g), "kind": kind})
+        for s, g in NINE[:1 if tier == "quick" else 2]:
+            out.append({"shape": s, "data": [9 * v for v in gen.dense_data(rng, s)], "grps": g, "conv": "2d",
+                        "kind": "random"})
         return out
 
     def evaluate(self, cases):
@@ -438,6 +447,11 @@ def malformed_groups(rng, shape):
         out.append(("range", [[n, n + 1], list(g)]))
     # empty row
     out.append(("empty", [[]]))
+    # a mode listed twice in one group (not checked by the code; model and implementation must still agree)
+    out.append(("repeat", [[0, 0]]))
+    if n >= 2 and shape[0] == shape[1]:
+        out.append(("repeat", [[1, 1, 0]]))
+        out.append(("repeat", [[0, 1, 0]]))
     # rows of one length only (a 2-d array)
     return [(k, g) for k, g in out if len({len(x) for x in g}) == 1]
 
@@ -600,7 +614,9 @@ class Kruskal(Family):
                     for fi in Kn["factors"][1:]:
                         for j in range(len(Kn["weights"])):
                             dot = sum(frac(a[j]) * frac(b[j]) for a, b in zip(f0, fi))
-                            if abs(dot) < Fraction(1, 10 ** 9):
+                            zero_col = all(frac(a[j]) == 0 for a in f0) or all(frac(b[j]) == 0 for b in fi)
+                            # a dot product that is zero up to rounding: its sign in floating point is noise
+                            if abs(dot) < Fraction(1, 10 ** 9) and not zero_col:
                                 near = True
                     if near:
                         v.tags = tuple(tags + ["near-orthogonal-skipped"])
